@@ -387,6 +387,7 @@ func jobC17(c *rt.Ctx) {
 	jobC17E2E(c)
 	// (5) valid chunks after rejected chunks of the same call
 	jobC17Mixed(c)
+	jobC17DenseLen(c)
 }
 
 func limbBoundaryValues() []*big.Int {
@@ -578,6 +579,51 @@ func jobC17E2E(c *rt.Ctx) {
 						c.Sample(d)
 					}
 				}
+			}
+		}
+	}
+}
+
+// jobC17DenseLen: all-valid batches whose entries have EVERY message length 0..8327 (eight consecutive
+// lengths per batch) and the windows around 16384, 32768, 65536, under pure, a 1-byte and a 255-byte
+// context: the batch equation itself accepts them (no fallback) however the batch path buffers
+// dom2 || R || A || M.
+func jobC17DenseLen(c *rt.Ctx) {
+	c.Require("dense-len/no-fallback")
+	var starts []int
+	for l := 0; l <= 8320; l += 8 {
+		starts = append(starts, l)
+	}
+	for _, m := range []int{16384, 32768, 65536} {
+		for l := m - 328; l <= m+40; l += 8 {
+			starts = append(starts, l)
+		}
+	}
+	for si, l0 := range starts {
+		for vi, vs := range []variantSpec{vPure, vCtx, {ref.Ctx, strings.Repeat("k", 255)}} {
+			if !c.Take() {
+				continue
+			}
+			entries := make([]triple, 8)
+			for i := range entries {
+				seed := seedOf(900 + (si+i)%5)
+				msg := msgLen(l0+i, si)
+				entries[i] = triple{ref.Public(seed), msg, ref.Sign(seed, msg, vs.v, []byte(vs.ctx))}
+			}
+			fallbacks := 0
+			verifOnFallback = func(off, bs int) { fallbacks++ }
+			all, valid, err, pv := implBatch(entries, vs, si%2 == 0, rt.NewRng(c.Seed, fmt.Sprint("dl", l0, vi)))
+			verifOnFallback = nil
+			c.Step(1)
+			c.Distinct(fmt.Sprintf("dl %d %d", l0, vi), true)
+			d := map[string]interface{}{"lengths": fmt.Sprintf("%d..%d", l0, l0+7), "variant": vs.String(), "fallbacks": fallbacks, "all": all, "valid": fmt.Sprint(valid), "err": fmt.Sprint(err), "panic": fmt.Sprint(pv)}
+			if pv != nil || err != nil || !all || len(valid) != 8 {
+				c.Violation("C17 dense-len valid batch rejected", fmt.Sprintf("all-valid batch with message lengths %d..%d (%s) not accepted", l0, l0+7, vs), d)
+			} else if fallbacks != 0 {
+				c.Class("dense-len/fallback")
+				c.Violation("C17 dense-len fallback used", fmt.Sprintf("all-valid batch with message lengths %d..%d (%s) needed the per-signature fallback", l0, l0+7, vs), d)
+			} else {
+				c.Class("dense-len/no-fallback")
 			}
 		}
 	}
